@@ -286,5 +286,10 @@ def run(prog, rep):
     from .c02 import size_identity
     gap_units = {u.name for u in cd.units.values() if u.cls is not None and u.cls.get("_segments", "getter") is not None}
     rep.attempt(size_identity, prog, cd, rep, with_consumed=False, only=gap_units)
+    # .. and a gapped record is decoded from a STREAM of records: its decoder must consume, on every path (a record without runs
+    # included), exactly the fields its writer emits, or every following record of the block is read from the wrong position
+    from .c01 import report_unit
+    for u in [u for u in cd.units.values() if u.name in gap_units]:
+        rep.attempt(report_unit, rep, cd, u, rule="gap-record-symmetry")
     rep.trusted += ["numpy contract: masked_invalid + clump_unmasked return the maximal runs of non-NaN entries as increasing, disjoint, non-adjacent slices"]
     rep.not_decided += ["the numpy contract itself over all 2^n masks", "tracks whose components disagree on where the NaNs are"]
